@@ -25,7 +25,7 @@ type c03Case struct {
 
 var c03Programs = []string{
 	"5", "1.5", "'s'", "\"s\"", "`a{1}b`", "null", "true", "x", "&xc", "this.x", "[1,2]", "[1..3]", "[]", "{}", "{'a':1}", "{a:1,}",
-	"(1+2)", "-x", "1+2*3", "x ?? 2", "x == 2", "x > 1 ? 'a' : 'b'", "x > 5 ? 'a', 1 ? 'c'", "0 || 3", "1 && 2", "1 & 3", "2 ** 3",
+	"(1+2)", "-x", "1+2*3", "x ?? 2", "x == 2", "x > 1 ? 'a' : 'b'", "x > 5 ? 'a', 1 ? 'c'", "x > 1 ? 'a', 1 ? 'c'", "1 ? 7, 1 ? 2", "0 || 3", "1 && 2", "1 & 3", "2 ** 3",
 	"xa[0]", "xa[0:1]", "xa[:]", "xd.k", "xd['k']", "xf(1)", "ceil(1.5)", "xa.len()", "xa kh", "[1,2,3]kl2", "[2,3].sum()", "xs[1]", "(xa)[1]",
 	"2d1", "d1", "2d", "d", "3d1k2", "2d1min1", "d1优势", "2d1d1", "(2d1)d1", "f", "b", "p1", "b2", "2a10", "a10", "2a10m1k1", "2c10", "2c10m1",
 	"y = 5", "y = x + 1", "&y = x + 1", "&xc.q = 3", "this.y = 3", "xd.j = 4", "xa[0] = 9", "xa[0:1] = [7]", "xd['j'] = 2", "y = z = 3",
@@ -48,7 +48,9 @@ var c03CompoundTails []string
 // already pushed parse-time state: counters, jump entries, code segments)
 func init() {
 	for _, op := range []string{",", ", 0 ?", ", 1 ?", "+", "||", "&&", "?", "? 1 :", "==", "=", ";", "\n", ".k = ", "[0] = ", "? 1, 0 ?"} {
-		for _, br := range []string{"'abc", "[1,", "{'a':", "(1+", "`x{1", "func g(){", "&y = (", "if 1 {", "xf(", "1 ||"} {
+		for _, br := range []string{"'abc", "[1,", "{'a':", "(1+", "`x{1", "func g(){", "&y = (", "if 1 {", "xf(", "1 ||",
+			// a COMPLETE definition (its own code segment is pushed and popped) inside a construct that is never closed
+			"`{&a=3+4", "{'k': &a = 9", "`{% func f(a){ a*2 }", "[&a = 1,"} {
 			c03CompoundTails = append(c03CompoundTails, op+" "+br)
 		}
 	}
@@ -65,9 +67,12 @@ func c03Enumerate(tier string, seed int64, emit func(string, any)) {
 		cfgs = append(cfgs, strict)
 	}
 	for _, p := range c03Programs {
-		for _, sep := range c03Seps {
+		for si, sep := range c03Seps {
 			for _, t := range c03Tails {
-				for _, c := range cfgs {
+				for ci, c := range cfgs {
+					if !thorough && ci > 0 && si >= 2 {
+						continue // quick: the family-off configuration with the separators "" and " " only
+					}
 					emit("program+sep+tail", c03Case{Src: p + sep + t, Cfg: c})
 				}
 			}
